@@ -1,6 +1,8 @@
 /-
   C15 — Metadata is truthful: exact element count, maxLength bounds every string.
 -/
+import CSD.Generated.Bodies
+import CSD.Model.SourceText
 import CSD.Lemmas.PFCMeta
 
 namespace CSD.Props.C15
@@ -39,5 +41,13 @@ theorem pfc_extract_fits (b : Nat) (S : List Str) (hv : validDict S = true)
     simp [this] at h
 
 example : (PFC.build 4 [[0x61], [0x62, 0x63]]).maxlength = 3 := by decide
+
+/-- The models this file's theorems are about were written against the current text of the C++
+functions they mirror (`CSD/Generated/Bodies.lean` is re-extracted from the sources on every run,
+`CSD/Model/SourceText.lean` is what was reviewed): an edit of one of these functions breaks this
+obligation even if no generated input tells the behaviours apart. -/
+theorem models_match_source_text :
+    Generated.body_PFC_ctor = SourceText.body_PFC_ctor ∧
+    Generated.body_PFC_load = SourceText.body_PFC_load := ⟨rfl, rfl⟩
 
 end CSD.Props.C15
